@@ -10,6 +10,7 @@ import z3
 from .values import *
 
 MAX_UNROLL = 2048
+MAX_SYM_UNROLL = 48
 
 
 _MISSING = object()
@@ -770,11 +771,18 @@ class Engine:
         spec = self.loop_specs.get((getattr(fr, "qualname", None), getattr(s, "_ordinal", None)))
         if spec is not None:
             return spec.run_while(self, s, fr)
-        n = 0
-        while self.truth(self.eval(s.test, fr)):
+        n = sym = 0
+        while True:
+            b0 = self.stats["branches"]
+            if not self.truth(self.eval(s.test, fr)):
+                break
             n += 1
-            if n > MAX_UNROLL:
-                raise Unsupported("while loop without invariant exceeds %d iterations (line %d)" % (MAX_UNROLL, s.lineno))
+            # an iteration whose test had to be decided by the solver: a loop over a symbolic bound; unrolling it is quadratic in the depth
+            # (every deeper path is re-executed from the start) and never complete - it needs a loop contract
+            sym += 1 if self.stats["branches"] > b0 else 0
+            if n > MAX_UNROLL or sym > MAX_SYM_UNROLL:
+                raise Unsupported("while loop without invariant exceeds %d iterations%s (line %d)" % (
+                    n - 1, " over a symbolic bound" if sym > MAX_SYM_UNROLL else "", s.lineno))
             try:
                 self.exec_block(s.body, fr)
             except _Break:
